@@ -5,6 +5,7 @@ package core
 import (
 	"fmt"
 	"go/ast"
+	"go/printer"
 	"go/token"
 	"go/types"
 	"os"
@@ -164,8 +165,17 @@ func (p *Prog) maybeExpand(fn *Fn) *Fn {
 	if p.NoExpand {
 		return fn
 	}
-	return p.Expanded(fn)
+	ex := p.Expanded(fn)
+	if d := os.Getenv("GPV_DUMP"); d != "" && d == fn.Name && !dumped[fn.Name] {
+		// debugging aid: print the function as the rules see it
+		dumped[fn.Name] = true
+		printer.Fprint(os.Stderr, token.NewFileSet(), ex.Decl)
+		fmt.Fprintln(os.Stderr)
+	}
+	return ex
 }
+
+var dumped = map[string]bool{}
 
 // rawFnOf finds the (unexpanded) declaration of a module function.
 func (p *Prog) rawFnOf(fo *types.Func) *Fn {
